@@ -93,11 +93,14 @@ fn is_content(e: &Ev, ino: u64) -> bool {
     e.ok() && e.ino == ino && matches!(e.kind, Kind::Write | Kind::CopyRange | Kind::Truncate)
 }
 
-/// The per-inode ordering invariant, on a fault-free run.
-pub fn check_order(run: &CellRun, expect_flush: bool) -> Vec<(String, String)> {
+/// The per-inode ordering invariant on a bare call trace (any number of participants).
+pub fn order_violations(trace: &[Ev], root: &str, expect_flush: bool) -> Vec<(String, String)> {
+    struct T<'a> {
+        trace: &'a [Ev],
+    }
+    let run = T { trace };
     let mut bad = Vec::new();
-    let root = run.dirs.write.to_string_lossy().into_owned();
-    let pubs: Vec<(usize, &Ev)> = run.trace.iter().enumerate().filter(|(_, e)| is_publication(e, &root)).collect();
+    let pubs: Vec<(usize, &Ev)> = run.trace.iter().enumerate().filter(|(_, e)| is_publication(e, root)).collect();
     for (pi, p) in &pubs {
         let ino = p.ino;
         let last_content = run.trace[..*pi].iter().rposition(|e| is_content(e, ino));
@@ -127,15 +130,19 @@ pub fn check_order(run: &CellRun, expect_flush: bool) -> Vec<(String, String)> {
             if e.ino == ino && e.ok() && (is_content(e, ino) || matches!(e.kind, Kind::Chmod | Kind::Fchmod)) {
                 bad.push(("modified-after-publication".into(), format!("{} on the published inode after it became visible", e.func)));
             }
-            if e.ino == ino
-                && e.ok()
-                && e.kind == Kind::Open
-                && ((e.flags as i32 & libc::O_ACCMODE) != libc::O_RDONLY || (e.flags as i32 & libc::O_TRUNC) != 0)
-            {
-                bad.push(("modified-after-publication".into(), "published inode re-opened for writing".into()));
-            }
+            // (merely opening the published inode for writing changes nothing: filetime's path-touch
+            // falls back to an O_WRONLY open; any write/truncate through it is a content event above)
+
         }
     }
+    bad
+}
+
+/// The per-inode ordering invariant, on a fault-free run of one matrix cell.
+pub fn check_order(run: &CellRun, expect_flush: bool) -> Vec<(String, String)> {
+    let root = run.dirs.write.to_string_lossy().into_owned();
+    let mut bad = order_violations(&run.trace, &root, expect_flush);
+    let pubs: Vec<(usize, &Ev)> = run.trace.iter().enumerate().filter(|(_, e)| is_publication(e, &root)).collect();
     // a fresh entry under the key name must come from a monitored publication
     for (rel, node) in write_entries(run) {
         let fresh = run.before[0].get(&rel).map(|b| b.meta.ino) != Some(node.meta.ino);
@@ -200,6 +207,14 @@ fn base_cases() -> Vec<Case> {
             (MOp::Gou(Act::Promote), vec![s], vec![0, 1]),
             (MOp::Gou(Act::Promote), vec![s], vec![0, 4]),
             (MOp::Ensure, vec![p, s], vec![0, 0, 3]),
+            // the key exists in a read-only level only: touch/lookup says "present", yet the write publishes
+            (MOp::Put, vec![p], vec![0, 1]),
+            (MOp::Set, vec![p], vec![0, 1]),
+            (MOp::PutTemp, vec![p], vec![0, 2]),
+            (MOp::SetTemp, vec![p], vec![0, 2]),
+            (MOp::Put, vec![s], vec![0, 3]),
+            (MOp::Put, vec![p, s], vec![0, 0, 4]),
+            (MOp::Put, vec![p], vec![1, 1]),
         ];
         if writer == s {
             paths.push((MOp::Set, vec![], vec![3]));
@@ -272,7 +287,9 @@ pub fn run(_tier: Tier, shard: Shard, rep: &mut Report) {
         auto_sync {on, off as a control of the monitor}; per published inode the trace must show last content event < successful \
         fsync < chmod stripping write bits <= publication, and no content/mode event afterwards. Then, for every auto_sync cell, each \
         fsync fails in turn with EIO and ENOSPC: the call must fail (or panic with the documented message for by-path set/put) and \
-        that inode must never be published. Non-trivial = the run contains a publication event."
+        that inode must never be published. The same per-inode monitor also runs on every schedule with <= 2 preemptions of programs \
+        where a write races with an outsider deleting the entry or with another writer (a decision not to flush must not rest on a \
+        check another participant can invalidate). Non-trivial = the run contains a publication event."
         .into();
     rep.assumptions = vec![
         "durability is judged by call order (fsync before rename/link); what a disk does after a power loss is out of scope".into(),
@@ -308,8 +325,56 @@ pub fn run(_tier: Tier, shard: Shard, rep: &mut Report) {
     rep.fact("base_cells", json!(no));
     let _ = shim::ORDER_SORTED;
     let _ = world::fnv(b"");
+    concurrent(_tier, shard, rep);
+}
+
+/// The same monitor under concurrency: the decision "nothing will be published" must not
+/// rest on a check that another participant can invalidate before the link/rename.
+fn concurrent_programs() -> Vec<(crate::sched::Program, crate::props::e1::Mode)> {
+    use crate::ops::{Op, Pop};
+    use crate::props::e1::{self, api, planted, Mode};
+    use crate::sched::POp;
+    use crate::world::Val;
+    let k = e1::key1();
+    let mut out = Vec::new();
+    for front in ["plain", "sharded"] {
+        let cfg = if front == "plain" { e1::plain_cfg(1 << 40) } else { e1::sharded_cfg(1 << 40) };
+        let loc = if front == "plain" { "k".to_string() } else { format!("{}/k", crate::ops::shard_dir_name(0)) };
+        let pre = vec![planted(&loc, Val::one(0), false, 1)];
+        let mk = |name: &str, threads: Vec<Vec<POp>>, pre: Vec<crate::sched::Planted>| crate::sched::Program {
+            name: format!("durable-{}-{}", front, name),
+            cfg: cfg.clone(),
+            pre,
+            threads: e1::own_handles(threads, false),
+            create_write_dir: true,
+        };
+        let v = |t: usize| e1::wval(t, 0, Size::Five);
+        out.push((mk("put|deleter", vec![vec![api(Op::Put(k.clone(), v(0)))], vec![POp::Unlink(loc.clone())]], pre.clone()), Mode::Bounded(2)));
+        out.push((mk("puttemp|deleter", vec![vec![api(Op::PutTemp(k.clone(), v(0)))], vec![POp::Unlink(loc.clone())]], pre.clone()), Mode::Bounded(2)));
+        out.push((mk("ensure|deleter", vec![vec![api(Op::Ensure(k.clone(), Pop::Value(v(0))))], vec![POp::Unlink(loc.clone())]], pre.clone()), Mode::Bounded(2)));
+        out.push((mk("put|set", vec![vec![api(Op::Put(k.clone(), v(0)))], vec![api(Op::Set(k.clone(), v(1)))]], vec![]), Mode::Bounded(2)));
+        out.push((mk("ensure|ensure", vec![vec![api(Op::Ensure(k.clone(), Pop::Value(v(0))))], vec![api(Op::Ensure(k.clone(), Pop::Value(v(1))))]], vec![]), Mode::Bounded(2)));
+    }
+    out
+}
+
+fn concurrent_check(x: &crate::sched::Execution) -> Vec<(String, String)> {
+    let root = x.root.join("w").to_string_lossy().into_owned();
+    order_violations(&x.trace, &root, true)
+}
+
+fn concurrent(_tier: Tier, shard: Shard, rep: &mut Report) {
+    let progs = concurrent_programs();
+    let mut chk = |_pi: usize, x: &crate::sched::Execution| concurrent_check(x);
+    crate::props::e1::explore_all("C03", &progs, shard, rep, &|_| crate::sched::RunOpts::default(), &mut chk, 500_000);
 }
 
 pub fn replay(case: &Value, rep: &mut Report) {
+    if case.get("program").is_some() {
+        let progs: Vec<crate::sched::Program> = concurrent_programs().into_iter().map(|p| p.0).collect();
+        let mut chk = |x: &crate::sched::Execution| concurrent_check(x);
+        crate::props::e1::replay_case("C03", &progs, case, rep, &|| crate::sched::RunOpts::default(), &mut chk);
+        return;
+    }
     record(&Case::from_json(case), rep);
 }
